@@ -555,6 +555,14 @@ func (c *Compiler) applyUsesToNode(mod, nod, use parse.Node, parentStatus schema
 
 	refinedNodes := []parse.Node{}
 	for _, kid := range group.Children() {
+		// The status, description and reference statements of a grouping
+		// describe the grouping itself. They are not part of what a uses
+		// copies: they would become statements of the node that contains
+		// the uses (and its status that of all the node's children).
+		switch kid.Type() {
+		case parse.NodeStatus, parse.NodeDescription, parse.NodeReference:
+			continue
+		}
 		newKid := kid.Clone(kidmod)
 		inheritCommonProperties(use, newKid, false)
 
